@@ -798,8 +798,11 @@ def run_history(seed, scratch: Path, rep: Report, *, nops, weights, checks, conc
                 _, locs = await cmd(world.snapshot(user, src_dir, files, backend=dry, record=False), 'snapshot')
                 world.orphans.update(locs)
                 nmissing = len(set(dry.objects) - set(world.backend.objects)) - 1     # chunk uploads before the snapshot object
-                late = rng.random() < 0.35
-                fb = FaultBackend(world.backend, 'fail_late' if late else 'crash', rng.randint(0, max(0, nmissing)))
+                r_ = rng.random()
+                late = r_ < 0.35
+                # (library use) one upload in the middle fails for good, the command ends with the error, the session lives on
+                midfail = (not late) and getattr(world, 'long_lived', False) and r_ < 0.75
+                fb = FaultBackend(world.backend, 'fail_late' if late else 'fail' if midfail else 'crash', rng.randint(0, max(0, nmissing)))
                 snaps_before = {n for n in world.backend.objects if n.startswith('snapshots/')}
                 overlapped = None
                 try:
@@ -808,17 +811,17 @@ def run_history(seed, scratch: Path, rep: Report, *, nops, weights, checks, conc
                         # command has already uploaded and only references them
                         mate = rng.choice([u for u in world.users if u['fam'] == user['fam']])
                         # (if the fault point is never reached - the other session uploaded first - the command completes: recorded)
-                        res_ = await asyncio.wait_for(asyncio.gather(world.snapshot(user, src_dir, files, backend=fb, record=True, same_object=late),
+                        res_ = await asyncio.wait_for(asyncio.gather(world.snapshot(user, src_dir, files, backend=fb, record=True, same_object=late or midfail),
                                                                       world.snapshot(mate, src_dir, files, fresh=True), return_exceptions=True), 90)
                         overlapped = res_[1]
                         if isinstance(overlapped, BaseException):
                             viol('exception', f'a fault-free snapshot overlapping a failing one raised {type(overlapped).__name__}: {str(overlapped)[:120]}')
                     else:
-                        await asyncio.wait_for(world.snapshot(user, src_dir, files, backend=fb, record=False, same_object=late), 60)
+                        await asyncio.wait_for(world.snapshot(user, src_dir, files, backend=fb, record=False, same_object=late or midfail), 60)
                 except BaseException:
                     pass
-                if late:
-                    # one upload failed for good after everything else had finished: the command ends there (with the error)
+                if late or midfail:
+                    # one upload failed for good (late: after everything else had finished): the command ends there (with the error)
                     fb.dead = True
                 for _ in range(2000):          # calls that were in flight at the kill may still land
                     if not fb.inflight:
@@ -831,7 +834,7 @@ def run_history(seed, scratch: Path, rep: Report, *, nops, weights, checks, conc
                     if lost and published:
                         viol('referenced_chunk_missing', 'a snapshot was published although the upload of one of its chunks had failed for good '
                                                          '(the failing call was the last to finish): it is listed but cannot be restored')
-                descr.append(['snapshot-with-late-failing-upload' if late else 'interrupted-snapshot', user['name']] + (['overlapped'] if overlapped is not None else []))
+                descr.append(['snapshot-with-late-failing-upload' if late else 'snapshot-with-failing-upload' if midfail else 'interrupted-snapshot', user['name']] + (['overlapped'] if overlapped is not None else []))
                 if overlapped is not None and 'restore' in checks:
                     ch_now, _, _ = world.lift()
                     gone_ = world.referenced() - ch_now
